@@ -99,15 +99,15 @@ func zzReadAll(r io.Reader, bufSize int) ([]byte, bool) {
 	return out, false
 }
 
-// zzPrelude: a/f="1", a/d/, g="22" on every side.
+// zzPrelude: a/f="1", a/d/h="3" (nested), g="22" on every side.
 func zzPrelude(fss []filesystem.Filespace, ref *reftree.Node) {
 	for _, fs := range fss {
 		nd.Assume(fs.WriteFile("a/f", []byte("1"), filesystem.DefaultUnixFileMode) == nil)
-		nd.Assume(fs.MkdirAll("a/d", filesystem.DefaultUnixDirMode) == nil)
+		nd.Assume(fs.WriteFile("a/d/h", []byte("3"), filesystem.DefaultUnixFileMode) == nil)
 		nd.Assume(fs.WriteFile("g", []byte("22"), filesystem.DefaultUnixFileMode) == nil)
 	}
 	ref.WriteFile([]string{"a", "f"}, []byte("1"))
-	ref.MkdirAll([]string{"a", "d"})
+	ref.WriteFile([]string{"a", "d", "h"}, []byte("3"))
 	ref.WriteFile([]string{"g"}, []byte("22"))
 }
 
